@@ -122,6 +122,22 @@ func TestC02(t *testing.T) {
 		})
 		// "+" with a string splices the number exactly as দেখাও prints it, on either side and between two
 		// strings (model-free: the program's own first line is the reference)
+		// ** where the result is tiny, huge or exactly at the edge of the representable: negative whole exponents whose
+		// positive power would overflow, results among the subnormals, signs of zero and of infinity
+		c.Sub("power-boundaries", func(s *Sub) {
+			var k int64
+			bases := []string{"2", "(-2)", "10", "1.5", "(-3)", "0.5", "(-0.5)", "7", "(-0)", "0", "1", "(-1)", "(2 ** 512)", "(10 ** 200)", "1.0000000000000002"}
+			exps := []string{"(-1030)", "(-1074)", "(-1075)", "(-1022)", "(-1023)", "(-320)", "(-323)", "(-324)", "(-400)", "(-1800)", "(-650)", "(-1)", "(-2)", "(-3)", "1023", "1024", "1074", "308", "309", "2", "3", "0", "(-0)"}
+			for _, b := range bases {
+				for _, e := range exps {
+					k++
+					if c.Mine(k) {
+						c.c02Program(s, "power-boundaries", c02Prelude+bn.KwPrint+" "+b+" ** "+e+";\n"+bn.KwPrint+" ("+b+" ** "+e+") == 0;\n"+bn.KwPrint+" ("+b+" ** "+e+") ** -1;\n", true, true, "op **", "power-boundary")
+					}
+				}
+			}
+			c.Ev.MarkExhaustive(fmt.Sprintf("%d bases x %d whole exponents around the overflow, underflow and subnormal thresholds", len(bases), len(exps)))
+		})
 		c.Sub("concat-renders-as-print", func(s *Sub) {
 			if c.Shard != 0 {
 				return
